@@ -275,12 +275,18 @@ class GroupedRecord(Record):
                 return record
         return None
 
+    def _field_value(self, k):
+        # Read the value from the record that provides the field: a field named like an attribute of the group
+        # itself (name, records, descriptors, flat_fields) must not be shadowed by that attribute
+        rec = self.fieldname_to_record[k]
+        return rec._field_value(k) if isinstance(rec, GroupedRecord) else getattr(rec, k)
+
     def _asdict(self, fields=None, exclude=None):
         exclude = exclude or []
         keys = self.fieldname_to_record.keys()
         if fields:
-            return OrderedDict((k, getattr(self, k)) for k in fields if k in keys and k not in exclude)
-        return OrderedDict((k, getattr(self, k)) for k in keys if k not in exclude)
+            return OrderedDict((k, self._field_value(k)) for k in fields if k in keys and k not in exclude)
+        return OrderedDict((k, self._field_value(k)) for k in keys if k not in exclude)
 
     def __repr__(self):
         return "<{} {}>".format(self.name, self.records)
